@@ -100,9 +100,37 @@ def gen_script(rng, tier, big):
     return '\n'.join(L) + '\n'
 
 
+def gen_second_session_script(rng, tier):
+    """Values of every size class written in a SECOND session, into the blob that was the active one at the clean
+    shutdown (it is re-opened in append mode, where the kernel puts every write at the physical end whatever offset is
+    passed): byte-exact blob file, round trip through the in-memory index and through a rebuilt one."""
+    K = rng.choice([4, 32])
+    L = ['cfg K=%d dup=1 runtime=%s validate=%d' % (K, rng.choice(['mt', 'ct']), rng.choice([0, 1])), 'open']
+    L.append('W %s 5 - 5 1' % key_hex(K, 0))
+    L += ['close', 'open']
+    recs = []
+    for i in range(rng.randrange(2, 5)):
+        meta = rng.choice(['-', 'm0', 'm1', 'm3'])
+        ln = rng.choice(sizes_for(K, meta, tier, rng) + [81920, 81921, 5000])
+        key = key_hex(K, i + 1)
+        seed = 0 if ln == 0 else 100 + i
+        L.append('W %s %d %s %d %d' % (key, 6 + i, meta, ln, seed))
+        recs.append((key, meta))
+    L.append('filehex blob 0')
+    for (key, meta) in recs:
+        L += ['R %s' % key, 'RD %s' % key]
+        if meta != '-':
+            L.append('RW %s %s' % (key, meta))
+    L += [rng.choice(['close', 'drop']), 'rmindex 0', 'open']
+    for (key, meta) in recs:
+        L.append('R %s' % key)
+    L += ['counts', 'close']
+    return '\n'.join(L) + '\n'
+
+
 def gen(tier, rng):
     n = 120 if tier == 'quick' else 1500
-    out = []
+    out = [('second%05d' % i, gen_second_session_script(rng, tier)) for i in range(n // 6)]
     for i in range(n):
         out.append(('bytes%05d' % i, gen_script(rng, tier, big=(i % 12 == 0))))
     return out
